@@ -167,7 +167,7 @@ func TestVerifC13(t *testing.T) {
 		}
 	}
 
-	k := r.Pick(3, 4)
+	k := r.Pick(4, 4)
 	vSubsets(len(vPool13), k, func(idx []int) {
 		id := "perm/" + vKey(idx)
 		if !r.Mine("set/" + vSetKey(idx)) {
@@ -310,7 +310,7 @@ func TestVerifC14(t *testing.T) {
 		}
 	}
 
-	k := r.Pick(3, 4)
+	k := r.Pick(4, 4)
 	vSubsets(len(vPool14), k, func(idx []int) {
 		if !r.Mine("set/" + vSetKey(idx)) {
 			return
@@ -409,7 +409,7 @@ func TestVerifC15(t *testing.T) {
 			r.Sample(map[string]any{"id": id, "routes": list, "expanded": got})
 		}
 	}
-	k := r.Pick(3, 4)
+	k := r.Pick(4, 4)
 	vSubsets(len(vPool15), k, func(idx []int) {
 		if !r.Mine("set/" + vSetKey(idx)) {
 			return
